@@ -3,7 +3,7 @@ From Coq Require Import List Ascii String ZArith Bool Lia Arith.
 Import ListNotations.
 
 (* ---------- parser output has the shape the printers rely on ---------- *)
-Lemma leaf_eok e : ParserShape.is_leaf e = true -> eok e = true.
+Lemma leaf_eok e : Shape.is_leaf e = true -> eok e = true.
 Proof. destruct e as [l op r bo fu]. destruct op, l, r; cbn; try discriminate; auto. Qed.
 
 Lemma plain_all lits : forallb is_plain lits = true ->
@@ -16,7 +16,7 @@ Qed.
 Lemma wf_eok : forall n e s, esize e <= n -> wf s e = true -> eok e = true.
 Proof.
   induction n as [|n IH]; intros e s Hs W; [destruct e; cbn in Hs; lia|].
-  assert (IF : forall f, esize f <= n -> (if s then ParserShape.is_leaf f else wf s f) = true -> eok f = true).
+  assert (IF : forall f, esize f <= n -> (if s then Shape.is_leaf f else wf s f) = true -> eok f = true).
   { intros f Hf H. destruct s; [apply leaf_eok; exact H|eapply IH; eauto]. }
   destruct e as [l op r bo fu]. cbn in Hs.
   destruct op; cbn [wf] in W; try discriminate;
